@@ -227,11 +227,18 @@ def _must_callers(prog, target, depth=3):
 
 
 def _seedcover(ctx, cfg, prog, mod):
+    ctx.rule('SEEDCOVER', 'seed_repair_queues and enqueue_new_cells_for_repair enqueue every simplex class for every present cell on every path of an iteration')
+    total = 0
+    for fq_ in (SEEDQ, ENQ):
+        total += _seedcover_fn(ctx, cfg, prog, mod, fq_)
+    ctx.floor('cell loops in the work-list seeding functions', 3, total, cfg)
+
+
+def _seedcover_fn(ctx, cfg, prog, mod, SEEDQ):
     import loops
-    ctx.rule('SEEDCOVER', 'seed_repair_queues enqueues every simplex class for every present cell on every path of an iteration')
     b = ctx.anchor(cfg, SEEDQ)
     if b is None:
-        return
+        return 0
     calls = {}
     for bb, t in b.calls():
         calls.setdefault(t.resolved or t.callee, []).append(bb)
@@ -279,7 +286,8 @@ def _seedcover(ctx, cfg, prog, mod):
                'facets are enqueued %s' % ('per iteration (enqueue_cell_facets)' if per_iter else
                                            'by a preceding loop over all facets (enqueue_facet)' if before else
                                            'on NO path guaranteed to run with this cell loop'), site=site)
-    ctx.floor('cell loops in seed_repair_queues (local and global seeding)', 2, n, cfg)
+    return n
+
 
 
 REBUILD = D_ + 'rebuild_with_heuristic'
